@@ -1,4 +1,4 @@
-// hash2coq regenerates coq/C20/Gen.v from utils/hashing/hash.go and utils/filesystem/filehash.go of $VERIF_REPO:
+// hash2coq regenerates coq/C20/Gen.v from utils/hashing/hash.go, utils/filesystem/filehash.go and utils/filesystem/tarfs.go of $VERIF_REPO:
 // the bodies of hashingAlgo.CalculateWithContext and fileHashing.calculateFile as statement lists of a tiny IR
 // (GU.C20.Model.stmt / fstmt), plus the facts that Calculate / CalculateFile[WithContext] delegate to them.
 // Every statement must match one of the known shapes EXACTLY (after removing white space); anything else is an
@@ -73,12 +73,12 @@ func main() {
 		die("unexpected signature of CalculateWithContext: %s", got)
 	}
 	shapes := map[string]string{
-		"ifr==nil{err=commonerrors.ErrUndefinedreturn}":       "SNilCheck",
-		"h.Hash.Reset()":                                      "SReset",
-		"_,err=safeio.CopyDataWithContext(ctx,r,h.Hash)":      "SCopy",
-		"iferr!=nil{return}":                                  "SReturnIfErr",
-		"hashN=hex.EncodeToString(h.Hash.Sum(nil))":           "SSumHex",
-		"return":                                              "SReturn",
+		"ifr==nil{err=commonerrors.ErrUndefinedreturn}": "SNilCheck",
+		"h.Hash.Reset()": "SReset",
+		"_,err=safeio.CopyDataWithContext(ctx,r,h.Hash)": "SCopy",
+		"iferr!=nil{return}":                             "SReturnIfErr",
+		"hashN=hex.EncodeToString(h.Hash.Sum(nil))":      "SSumHex",
+		"return": "SReturn",
 	}
 	var body []string
 	for _, st := range calc.Body.List {
@@ -154,6 +154,55 @@ func main() {
 		die("type fileHashing is not struct{algo hashing.IHash}: state carried between file hashes is outside the model")
 	}
 
+	// ---- tarfs.go: does the tar adapter hand out REWOUND handles?  (afero's tarfs shares one reader between all the
+	// handles of a file; see coq/C20/Model.v, shfile)
+	tf, err := parser.ParseFile(fset, filepath.Join(repo, "utils/filesystem/tarfs.go"), nil, 0)
+	if err != nil {
+		die("%v", err)
+	}
+	var adapter *ast.FuncDecl
+	for _, d := range tf.Decls {
+		if fd, ok := d.(*ast.FuncDecl); ok && fd.Recv == nil && fd.Name.Name == "newTarFSAdapterFromReader" {
+			adapter = fd
+		}
+	}
+	if adapter == nil || len(adapter.Body.List) == 0 {
+		die("tarfs.go: newTarFSAdapterFromReader not found")
+	}
+	tarRewinds := "false"
+	switch last := norm(fset, adapter.Body.List[len(adapter.Body.List)-1]); last {
+	case "returnafero.NewReadOnlyFs(tarfs.New(reader)),nil":
+		// afero's tarfs as it is: handles share the reader and are not rewound
+	case "returnafero.NewReadOnlyFs(&rewindingTarFs{Fs:tarfs.New(reader)}),nil":
+		tarRewinds = "true"
+		want := map[string]string{
+			"Open":     "{returnt.rewind(t.Fs.Open(name))}",
+			"OpenFile": "{returnt.rewind(t.Fs.OpenFile(name,flag,perm))}",
+			"rewind":   "{iferr!=nil||f==nil{returnf,err}ifinfo,subErr:=f.Stat();subErr==nil&&info!=nil&&!info.IsDir(){if_,subErr=f.Seek(0,io.SeekStart);subErr!=nil{_=f.Close()returnnil,subErr}}returnf,nil}",
+		}
+		for name, body := range want {
+			m := findMethod(tf, "rewindingTarFs", name)
+			if m == nil {
+				die("tarfs.go: method (*rewindingTarFs).%s not found", name)
+			}
+			if got := norm(fset, m.Body); got != body {
+				die("tarfs.go: (*rewindingTarFs).%s is outside the translated fragment: %s", name, got)
+			}
+		}
+		structOK := false
+		ast.Inspect(tf, func(n ast.Node) bool {
+			if ts, ok := n.(*ast.TypeSpec); ok && ts.Name.Name == "rewindingTarFs" {
+				structOK = norm(fset, ts.Type) == "struct{afero.Fs}"
+			}
+			return true
+		})
+		if !structOK {
+			die("tarfs.go: type rewindingTarFs is not struct{afero.Fs}")
+		}
+	default:
+		die("tarfs.go: newTarFSAdapterFromReader returns something outside the translated fragment: %s", last)
+	}
+
 	var b strings.Builder
 	b.WriteString("(* GENERATED by translator-c20/cmd/hash2coq from utils/hashing/hash.go and utils/filesystem/filehash.go of the\n")
 	b.WriteString("   repository's working tree — DO NOT EDIT; regenerated on every run of ./check C20. *)\n")
@@ -164,6 +213,9 @@ func main() {
 	b.WriteString("   CalculateFile / CalculateFileWithContext pass Calculate / CalculateWithContext of the same object as hashFunc;\n")
 	b.WriteString("   neither struct carries anything between calls except the hash.Hash itself *)\n")
 	b.WriteString("Definition calculate_file_body : list fstmt := [" + strings.Join(fbody, "; ") + "].\n")
+	b.WriteString("\n(* tarfs.go  newTarFSAdapterFromReader: the file system handed out wraps afero's tarfs so that Open / OpenFile rewind the\n")
+	b.WriteString("   handle (Seek(0, io.SeekStart) on every non-directory) — true; or is afero's tarfs as it is — false *)\n")
+	b.WriteString("Definition tar_open_rewinds : bool := " + tarRewinds + ".\n")
 	if err := os.WriteFile(out, []byte(b.String()), 0o644); err != nil {
 		die("%v", err)
 	}
